@@ -183,9 +183,15 @@ func (f *frame) invEnv(li *loopInfo, st *State, phiTerm func(p *ssa.Phi) string)
 	sort.Slice(outer, func(i, j int) bool { return len(outer[i].body) > len(outer[j].body) })
 	for _, o := range outer {
 		// $n_loop<k>: completed iterations of the enclosing range loop with ordinal k
-		if phi, _, _ := f.rangeIndexInfo(o); phi != nil {
+		if phi, _, lenV := f.rangeIndexInfo(o); phi != nil {
 			if v, ok := f.vals[phi]; ok && v.term != "" {
 				env.vars[fmt.Sprintf("ζn_loop%d", o.ordinal)] = cval{term: fmt.Sprintf("(+ %s 1)", v.term), typ: types.Typ[types.Int]}
+			}
+			// $len_loop<k>: the number of elements the enclosing range loop iterates over
+			if lenV != nil {
+				if lv, ok := f.vals[lenV]; ok && lv.term != "" {
+					env.vars[fmt.Sprintf("ζlen_loop%d", o.ordinal)] = cval{term: lv.term, typ: types.Typ[types.Int]}
+				}
 			}
 		}
 		for _, in := range o.header.Instrs {
@@ -255,7 +261,7 @@ func (f *frame) autoInvariants(li *loopInfo, st *State, phiTerm func(p *ssa.Phi)
 	var out []string
 	// heap arrays that the loop writes only inside objects allocated within the loop keep the content of
 	// every object that existed when the loop was entered
-	if eff := f.loopEff[li]; eff != nil && !eff.all && !eff.ext {
+	if eff := f.loopEff[li]; eff != nil && !eff.all && !eff.ext && !(f.t.fc != nil && f.t.fc.NoAutoFrame) {
 		if pre := f.loopPre[li]; pre != nil && st != pre {
 			t := f.t
 			for _, name := range sortedKeys(eff.arrs) {
